@@ -60,7 +60,8 @@ def mk_scn(rng: random.Random, unauthorised: str = "") -> dict:
         sims.append({"sid": "X", "type": "time-based", "path": [], "entities": ["e0"], "ins": {"i": "nontrigger"},
                      "outs": {"o": "persistent"}, "beh": {"seed": 5, "sizes": [rng.choice([1, 2])]}})
         if rng.random() < 0.5:
-            conns.append({"src": "X", "se": "e0", "sa": "o", "dst": "A", "de": ents_a[0], "da": "d" if False else "c2"})
+            # an ordinary persistent connection into the very attribute the agents write with set_data
+            conns.append({"src": "X", "se": "e0", "sa": "o", "dst": "A", "de": ents_a[0], "da": rng.choice(["c", "d", "c2"])})
             sims[0]["ins"]["c2"] = "nontrigger"
     if unauthorised:
         # an agent without (async) connection to A tries to write / read
